@@ -16,6 +16,7 @@ import (
 	"io"
 	"io/ioutil"
 	"os"
+	"runtime"
 	"sort"
 	"strconv"
 	"strings"
@@ -35,6 +36,7 @@ type verifC15Inst struct {
 	id       int
 	tags     cloud.InstanceTags
 	destroys int32
+	setTags  chan cloud.InstanceTags // op tg: every tag set passed to SetTags
 }
 
 func (i *verifC15Inst) ID() cloud.InstanceID     { return cloud.InstanceID(fmt.Sprintf("inst%d", i.id)) }
@@ -43,7 +45,14 @@ func (i *verifC15Inst) ProviderType() string     { return "fake" }
 func (i *verifC15Inst) Address() string          { return "127.0.0.1" }
 func (i *verifC15Inst) RemoteUser() string       { return "root" }
 func (i *verifC15Inst) Tags() cloud.InstanceTags { return i.tags }
-func (i *verifC15Inst) SetTags(cloud.InstanceTags) error {
+func (i *verifC15Inst) SetTags(t cloud.InstanceTags) error {
+	if i.setTags != nil {
+		c := cloud.InstanceTags{}
+		for k, v := range t {
+			c[k] = v
+		}
+		i.setTags <- c
+	}
 	return nil
 }
 func (i *verifC15Inst) Destroy() error {
@@ -110,6 +119,43 @@ func (is *verifC15IS) Instances(cloud.InstanceTags) ([]cloud.Instance, error) {
 	return append([]cloud.Instance(nil), is.insts...), nil
 }
 func (is *verifC15IS) Stop() {}
+
+// executor for op wc: its Close() finds out whether the caller holds the pool mutex. If it does, the
+// mutex stays taken for as long as Close() runs (the caller waits for it); otherwise TryLock succeeds
+// as soon as whoever else had it for a moment lets go.
+type verifC15CloseExec struct {
+	verifC15Exec
+	wp     *Pool
+	report chan bool
+}
+
+func (e *verifC15CloseExec) Close() {
+	held := true
+	deadline := time.Now().Add(time.Second)
+	for time.Now().Before(deadline) {
+		if e.wp.mtx.TryLock() {
+			e.wp.mtx.Unlock()
+			held = false
+			break
+		}
+		time.Sleep(50 * time.Microsecond)
+	}
+	e.report <- held
+}
+
+func verifC15Quiesce() int {
+	deadline := time.Now().Add(200 * time.Millisecond)
+	n, same := runtime.NumGoroutine(), 0
+	for same < 8 && time.Now().Before(deadline) {
+		time.Sleep(50 * time.Microsecond)
+		if m := runtime.NumGoroutine(); m == n {
+			same++
+		} else {
+			n, same = m, 0
+		}
+	}
+	return n
+}
 
 // stub executor: answers immediately from its configuration
 type verifC15Exec struct {
@@ -744,6 +790,74 @@ func verifC15Case(line string) (out string) {
 		// what TagVerifier.VerifyHostKey calls once the SSH connection to the instance is verified
 		wp.reportSSHConnected(&verifC15Inst{id: 1})
 		return "ok"
+	case f[0] == "tg" && len(f) == 5:
+		nw, ok := verifC15IB[f[2]]
+		tok, e1 := verifC15Bool(f[3])
+		extra, e2 := verifC15Bool(f[4])
+		if !ok || e1 != nil || e2 != nil {
+			return "bad-op"
+		}
+		wp := verifC15NewPool(ex)
+		w := verifC15AddWorker(wp, 1, 1, StateIdle, IdleBehaviorRun, nil, nil, nil)
+		tags := cloud.InstanceTags{tagKeyInstanceSetID: "set1", tagKeyInstanceSecret: "sec1", tagKeyInstanceType: "type1"}
+		if !tok {
+			tags[tagKeyInstanceType] = "stale"
+		}
+		if f[1] != "-" {
+			old, ok := verifC15IB[f[1]]
+			if !ok {
+				return "bad-op"
+			}
+			tags[tagKeyIdleBehavior] = string(old)
+			w.wkr.idleBehavior = old
+		}
+		if extra {
+			tags["zone"] = "x"
+		}
+		w.inst.tags = tags
+		w.inst.setTags = make(chan cloud.InstanceTags, 8)
+		base := verifC15Quiesce()
+		if err := wp.SetIdleBehavior(w.inst.ID(), nw); err != nil {
+			return "driver-error " + err.Error()
+		}
+		// saveTags hands the write to a goroutine: wait until everything SetIdleBehavior started has ended
+		deadline := time.Now().Add(10 * time.Second)
+		for runtime.NumGoroutine() > base && time.Now().Before(deadline) {
+			time.Sleep(20 * time.Microsecond)
+		}
+		select {
+		case t := <-w.inst.setTags:
+			var kv []string
+			for k, v := range t {
+				kv = append(kv, k+"="+v)
+			}
+			sort.Strings(kv)
+			return "set=" + strings.Join(kv, ";")
+		default:
+			return "set=none"
+		}
+	case f[0] == "wc" && len(f) == 3:
+		sg, e1 := verifC15Us(f[1])
+		rg, e2 := verifC15Us(f[2])
+		if e1 != nil || e2 != nil {
+			return "bad-op"
+		}
+		wp := verifC15NewPool(ex)
+		cex := &verifC15CloseExec{wp: wp, report: make(chan bool, 4)}
+		wp.newExecutor = func(cloud.Instance) Executor { return cex }
+		st := StateIdle
+		if len(sg)+len(rg) > 0 {
+			st = StateRunning
+		}
+		verifC15AddWorker(wp, 1, 1, st, IdleBehaviorRun, sg, rg, nil)
+		// the instance is gone from the cloud's list: Pool.sync drops the worker and closes it
+		wp.sync(time.Now(), nil)
+		select {
+		case held := <-cex.report:
+			return fmt.Sprintf("closed=1 held=%s", verifC15B(held))
+		case <-time.After(10 * time.Second):
+			return "closed=0 held=0"
+		}
 	case f[0] == "o1" && len(f) == 2:
 		ex.gated, ex.arrived = true, map[int][]chan struct{}{}
 		ex.bootOk, ex.listOk = true, true
